@@ -3,7 +3,8 @@
 //   I graph T <nUser> (<nmob> <good>)*  B <nb> (<mass> <mustBeBase>)*  J <nj> (<type> <parent> <child> <mustBeLoop>)*
 //        joint types: 0 = weld (0 mobilities, good loop joint), 1 = free (6, good), 2+k = k-th user type;
 //        bodies: 0 = Ground, 1..nb = input bodies (masses are small non-negative integers);
-//        joints: parent != child (documented precondition of addJoint), indices into the body list.
+//        joints: indices into the body list; parent == child (a self-joint, against the documentation but accepted by
+//        addJoint, which has no check) is generated too so that model == code is tested there as well.
 //   O graph OK <numBodies> <numJoints> <numMobilizers> <numLoopConstraints>   |   O graph EXC:<class>
 //   O mob  k <joint|-1> <inboard> <outboard master> <level> <reversed> <isSlave> <isAddedBase> <numFragments> <typeName>
 //   O loop k <typeName> <joint> <parent> <child>
@@ -220,6 +221,8 @@ static void runCase(const Graph& g) {
     for (int k = 0; k < NM; ++k) { anyRev |= mv[k].rev; anyAdded |= mv[k].added; }
     for (int k = 1; k < NM; ++k) if (mgm.getMobilizer(k).getLevel() < mgm.getMobilizer(k - 1).getLevel()) anyJump = true;
     std::string tag = "ok";
+    bool anySelf = false; for (auto& j : g.joints) anySelf |= (j.parent == j.child);
+    if (anySelf) vh::D("input.selfjoint");
     if (anyRev) tag += ".rev"; if (anyAdded) tag += ".addedbase"; if (anySlave) tag += ".slave";
     if (NC) tag += ".loopc"; if (anyJump) tag += ".masslessjump";
     vh::D(tag);
@@ -234,8 +237,9 @@ static Graph baseGraph() { Graph g; g.user.assign(kUser4, kUser4 + 4); return g;
 // pair of distinct bodies (Ground included) x a type from `types` x mustBeLoop from {0..nml-1}.
 struct Space {
     int nb, nj; std::vector<int> types; int nml; int nbaseopt;   // nbaseopt: 1 = never mustBeBase, 2 = both
+    bool self = true;                                            // ordered pairs include parent == child (self-joints)
     uint64_t perBody() const { return 2ull * nbaseopt; }
-    uint64_t perJoint() const { return (uint64_t)(nb + 1) * nb * types.size() * nml; }
+    uint64_t perJoint() const { return (uint64_t)(nb + 1) * (self ? nb + 1 : nb) * types.size() * nml; }
     uint64_t size() const { uint64_t s = 1; for (int i = 0; i < nb; ++i) s *= perBody(); for (int j = 0; j < nj; ++j) s *= perJoint(); return s; }
     Graph decode(uint64_t idx) const {
         Graph g = baseGraph();
@@ -245,7 +249,7 @@ struct Space {
             int ml = (int)(d % nml); d /= nml;
             int t = types[d % types.size()]; d /= types.size();
             int p = (int)(d % (nb + 1)); d /= (nb + 1);
-            int c = (int)d; if (c >= p) ++c;                 // c in 0..nb, c != p
+            int c = (int)d; if (!self && c >= p) ++c;        // c in 0..nb (c != p unless self-joints are enumerated)
             g.joints.push_back(JN{t, p, c, ml});
         }
         return g;
@@ -257,16 +261,16 @@ static std::vector<Space> exhaustiveSpaces(bool thorough) {
     std::vector<Space> v;
     for (int nb = 0; nb <= 2; ++nb)
         for (int nj = 0; nj <= 2; ++nj) {
-            if (nb == 0 && nj > 0) continue;
-            if (!thorough && nb == 2 && nj == 2) continue;   // quick: all graphs with (nb<=2,nj<=1) or (nb=1,nj<=2)
-            v.push_back(Space{nb, nj, T4, 2, 2});
+            if (!thorough && nb == 2 && nj == 2) continue;   // quick: all graphs with (nb<=2,nj<=1) or (nb<=1,nj<=2)
+            v.push_back(Space{nb, nj, T4, 2, 2, true});      // incl. self-joints (also Ground->Ground when nb == 0)
         }
     return v;
 }
 static std::vector<Space> sampledSpaces() {
     std::vector<int> T4 = {0, 2, 4, 5}, T3 = {0, 2, 4}, T6 = {0, 1, 2, 3, 4, 5};
-    return { Space{2, 2, T4, 2, 2}, Space{2, 3, T4, 2, 2}, Space{3, 2, T4, 2, 2}, Space{3, 3, T4, 2, 2},
-             Space{3, 4, T3, 2, 2}, Space{3, 4, T6, 2, 2}, Space{2, 4, T4, 2, 2}, Space{4, 4, T3, 2, 2}, Space{4, 5, T3, 1, 1} };
+    return { Space{2, 2, T4, 2, 2, false}, Space{2, 3, T4, 2, 2, true}, Space{3, 2, T4, 2, 2, false}, Space{3, 3, T4, 2, 2, true},
+             Space{3, 4, T3, 2, 2, false}, Space{3, 4, T6, 2, 2, false}, Space{2, 4, T4, 2, 2, false}, Space{4, 4, T3, 2, 2, true},
+             Space{4, 5, T3, 1, 1, false} };
 }
 
 // random larger graphs
@@ -307,6 +311,8 @@ static Graph randomGraph(vh::Rng& r, int maxBodies) {
         if (r.below(8) == 0 && !g.joints.empty()) { const JN& d = g.joints[r.below((int)g.joints.size())]; a = d.parent; b = d.child; if (r.coin()) std::swap(a, b); }  // duplicate connection
         if (a != b) g.joints.push_back(JN{rtype(), a, b, r.below(100) < pLoopFlag ? 1 : 0});
     }
+    // a self-joint now and then (parent == child; accepted by addJoint)
+    if (r.below(10) == 0) { int b = r.below(nb + 1); g.joints.push_back(JN{rtype(), b, b, r.below(100) < pLoopFlag ? 1 : 0}); }
     // shuffle the joint order sometimes (joint numbering drives tie-breaking)
     if (r.below(3) == 0)
         for (int i = (int)g.joints.size() - 1; i > 0; --i) std::swap(g.joints[i], g.joints[r.below(i + 1)]);
@@ -330,7 +336,7 @@ static void replay() {
             const int nb = (int)g.bodies.size(), nt = 2 + (int)g.user.size();
             for (auto& t : g.user) ok = ok && t.nmob >= 0 && t.nmob <= 6;
             for (auto& b : g.bodies) ok = ok && b.mass >= 0;
-            for (auto& j : g.joints) ok = ok && j.type >= 0 && j.type < nt && j.parent >= 0 && j.parent <= nb && j.child >= 0 && j.child <= nb && j.parent != j.child;
+            for (auto& j : g.joints) ok = ok && j.type >= 0 && j.type < nt && j.parent >= 0 && j.parent <= nb && j.child >= 0 && j.child <= nb;
             if (ok) runCase(g);      // malformed / illegal records are skipped (never issue an illegal API call)
         }
         if (ch == EOF) break;
